@@ -964,7 +964,11 @@ class PyvalColorizer:
 
             elif op == sre_constants.SUBPATTERN: #type:ignore[attr-defined]
                 if args[0] is None:
-                    self._output(r'(?:', self.RE_GROUP_TAG, state)
+                    # flags that apply to this group only: (?aiLmsux-imsx:...)
+                    def letters(flags: int) -> str:
+                        return ''.join(c for (c,n) in sorted(sre_parse36.FLAGS.items()) if (n&flags))
+                    scoped = letters(args[1]) + ('-' + letters(args[2]) if args[2] else '')
+                    self._output(f'(?{scoped}:', self.RE_GROUP_TAG, state)
                 elif args[0] in groups:
                     self._output(r'(?P<', self.RE_GROUP_TAG, state)
                     self._output(groups[args[0]], self.RE_REF_TAG, state)
